@@ -193,7 +193,7 @@ func (c *Collection) _stopFeeds() {
 	for _, feed := range c.bucket.collectionFeeds[c.DataStoreNameImpl] {
 		feed.close()
 	}
-	c.bucket.collectionFeeds = nil
+	delete(c.bucket.collectionFeeds, c.DataStoreNameImpl)
 }
 
 //////// DCPFEED:
